@@ -154,6 +154,7 @@ class CheckC07(core.Check):
             if after:
                 compared_after_failure += 1
         r.stats["post_failure_outputs_compared"] += compared_after_failure
+        r.sets.setdefault("fault_causes", set()).update((o, _cc(c)) for o, c in fired)
         if fired and compared_after_failure:
             r.nontrivial = True
             r.keys.add((variant, dh, tuple(sorted(set((o, _cc(c)) for o, c in fired)))))
